@@ -156,6 +156,13 @@ def conforms(spec, t, got, path="arg"):
     return out
 
 
+def nullable_named_kind(spec, t):
+    t = t[1] if t[0] == "nn" else t
+    if t[0] == "list":
+        return "list"
+    return "builtin" if t[1] in GS.BUILTIN_SCALARS else spec.kind(t[1])
+
+
 def wrong_variant(draw, spec, t, v, depth=0):
     """inject one structural error at a drawn position of a natural value"""
     if t[0] == "nn":
@@ -163,6 +170,9 @@ def wrong_variant(draw, spec, t, v, depth=0):
             return None
         return wrong_variant(draw, spec, t[1], v, depth)
     if t[0] == "list":
+        if t[1][0] != "list" and nullable_named_kind(spec, t[1]) != "input" and draw(st.integers(0, 3)) == 0:
+            # a JSON object where a list of scalars / enums is expected: one (wrong) value, not a collection of its keys
+            return draw(st.sampled_from([{"a": 1}, {"k": "x", "l": "y"}, {}]))
         if isinstance(v, list) and v and draw(st.booleans()):
             i = draw(st.integers(0, len(v) - 1))
             return v[:i] + [wrong_variant(draw, spec, t[1], v[i], depth + 1)] + v[i + 1:]
@@ -176,7 +186,8 @@ def wrong_variant(draw, spec, t, v, depth=0):
     if k == "enum":
         # ... including the members' own python values (ints, bools, strings that are not names, and floats equal to the ints):
         # what a resolver is handed for a member is never what a client may send for it
-        internals = [x["value"] for x in spec["types"][n]["values"] if x["value"] != x["name"]]
+        names = {x["name"] for x in spec["types"][n]["values"]}
+        internals = [x["value"] for x in spec["types"][n]["values"] if not (isinstance(x["value"], str) and x["value"] in names)]
         internals += [float(x) for x in internals if isinstance(x, int) and not isinstance(x, bool)]
         return draw(st.sampled_from([{"__enum__": "NOPE_NOT_A_VALUE"}, 5, {"k": 1}, [[{"__enum__": "X"}]], True] + internals * 2))
     # input object
